@@ -16,18 +16,18 @@ import (
 
 type Rec struct {
 	mu          sync.Mutex
-	Property    string            `json:"property"`
-	Evaluations int64             `json:"evaluations"`
-	Nontrivial  map[uint64]bool   `json:"-"`
-	Hashes      []string          `json:"nontrivial_hashes"`
-	Classes     map[string]int64  `json:"classes"`
-	Samples     []interface{}     `json:"samples"`
-	NTSamples   []interface{}     `json:"nontrivial_samples"`
-	KnownHits   map[string]int64  `json:"known_hits"`
-	Excluded    int64             `json:"excluded_known"`
-	Violations  []string          `json:"violations"`
+	Property    string                 `json:"property"`
+	Evaluations int64                  `json:"evaluations"`
+	Nontrivial  map[uint64]bool        `json:"-"`
+	Hashes      []string               `json:"nontrivial_hashes"`
+	Classes     map[string]int64       `json:"classes"`
+	Samples     []interface{}          `json:"samples"`
+	NTSamples   []interface{}          `json:"nontrivial_samples"`
+	KnownHits   map[string]int64       `json:"known_hits"`
+	Excluded    int64                  `json:"excluded_known"`
+	Violations  []string               `json:"violations"`
 	Extra       map[string]interface{} `json:"extra"`
-	Exhaustive  []string          `json:"exhaustive"`
+	Exhaustive  []string               `json:"exhaustive"`
 	maxSamples  int
 }
 
@@ -204,6 +204,19 @@ func (r *Rec) History(name string, payload interface{}) string {
 		return ""
 	}
 	return r.Violation(name, payload)
+}
+
+// Inconclusive records that a case could not be decided (a harness time budget
+// was hit where hanging is not what the property is about).  The driver turns
+// the marker into exit status 2 unless a violation was found.
+func (r *Rec) Inconclusive(msg string) {
+	f, err := os.OpenFile(filepath.Join(outDir(), "inconclusive_"+r.Property+".txt"), os.O_APPEND|os.O_CREATE|os.O_WRONLY, 0o644)
+	if err != nil {
+		return
+	}
+	defer f.Close()
+	fmt.Fprintln(f, msg)
+	r.Class("inconclusive-harness-timeout")
 }
 
 // Violation writes a replay file of kind "case" and returns its path.
